@@ -26,6 +26,7 @@ type C06Case struct {
 	Side     string   `json:"side"`     // "dst" | "src"
 	Total    string   `json:"total"`
 	TotalVar bool     `json:"totalvar"` // total passed through a monetary variable
+	Twice    bool     `json:"twice"`    // the send statement is written twice (every variable is then used twice)
 }
 
 func (c *C06Case) build() (*gen.ExecCase, []string) {
@@ -82,6 +83,9 @@ func (c *C06Case) build() (*gen.ExecCase, []string) {
 		st.Src = s
 	}
 	ec.Script.Stmts = []*gen.Stmt{st}
+	if c.Twice {
+		ec.Script.Stmts = append(ec.Script.Stmts, st)
+	}
 	return ec, names
 }
 
@@ -171,7 +175,7 @@ func enumC06(tier string, shard, nshards int, visit func(any) bool) (string, boo
 							if idx%nshards != shard {
 								continue
 							}
-							c := &C06Case{Portions: append([]string{}, ps...), AsVars: append([]bool{}, asv...), Side: side, Total: fmt.Sprint(x)}
+							c := &C06Case{Portions: append([]string{}, ps...), AsVars: append([]bool{}, asv...), Side: side, Total: fmt.Sprint(x), Twice: mode == 3 && x%2 == 1}
 							if !visit(c) {
 								ok = false
 								return
@@ -305,6 +309,7 @@ func genC06(t *rapid.T, tier string) any {
 	if !c.TotalVar {
 		c.TotalVar = gen.Chance(t, "totalvar", 20)
 	}
+	c.Twice = gen.Chance(t, "twice", 25)
 	return c
 }
 
@@ -372,6 +377,9 @@ func checkC06(cc any) *ev.Verdict {
 	want := map[string]*big.Int{}
 	for i, s := range shares {
 		want[names[i]] = s
+		if c.Twice {
+			want[names[i]] = new(big.Int).Lsh(s, 1)
+		}
 		tot.Add(tot, s)
 		exact := new(big.Rat).Mul(rats[i], new(big.Rat).SetInt(x))
 		if !exact.IsInt() {
